@@ -131,10 +131,12 @@ def compare_model_real(index, lines, model, real, strict_err=True):
                 break
             n += 1
             if m != r:
-                # class-specific bindings (e.g. matrix arrays) may order their argument checks differently:
-                # outside IntArray two errors with identical state compare equal
-                if not strict_err and m.startswith("err ") and r.startswith("err ") and \
-                        m.split(";", 1)[-1] == r.split(";", 1)[-1]:
+                # The ONLY tolerated difference (measured over all 47 other classes): the class-specific `__setitem__(int, elem)`
+                # bindings of the matrix / vector arrays canonicalise the index BEFORE the read-only test, so an out-of-range
+                # int index on a read-only array raises IndexError where the generic code raises ValueError(read-only).
+                # Both leave the state unchanged; any other pair of different errors is a mismatch.
+                if not strict_err and m.startswith("err ValueError:readOnly") and r.startswith("err IndexError:indexError") and \
+                        m.split(";", 1)[-1] == r.split(";", 1)[-1] and lines[ln].startswith("setscalar ") and " i:" in lines[ln]:
                     continue
                 mism.append((pno, kind, k, m, r))
                 break
@@ -225,7 +227,7 @@ def classify(prog, k, spec_line, real_line):
 # ----------------------------------------------------------------------------------------------
 # shrinking
 
-CREATORS = ("alloc", "alloci", "allocc", "allocw", "comp", "getslice", "getmask", "copy", "convert", "ifelses", "ifelsev")
+CREATORS = ("alloc", "alloci", "allocc", "allocfill", "allocw", "comp", "getslice", "getmask", "copy", "convert", "ifelses", "ifelsev")
 
 
 def renumber_without(prog, k, model_lines):
